@@ -4,6 +4,7 @@ import (
 	"fmt"
 	"math/rand"
 	"net"
+	"strings"
 	"sync"
 	"sync/atomic"
 	"time"
@@ -103,6 +104,7 @@ func (h *BC) Echo(arg *[]byte) ([]byte, *erpc.Status) {
 		h.Session().Push(pushPathB, []byte("back"))
 	}
 	h.SetMeta("k", "v")
+	echoMeta(h.PeekMeta, h.SetMeta)
 	return append([]byte("re:"), *arg...), nil
 }
 
@@ -122,6 +124,7 @@ func (h *SC) Echo(arg *TMsg) (*TMsg, *erpc.Status) {
 	if len(arg.Author)%3 == 0 {
 		h.Session().Push(pushPathS, &TMsg{Author: "back"})
 	}
+	echoMeta(h.PeekMeta, h.SetMeta)
 	return &TMsg{Author: arg.Author + "->ok"}, nil
 }
 
@@ -155,34 +158,26 @@ func newPeer(cfg erpc.PeerConfig, plugins ...erpc.Plugin) erpc.Peer {
 }
 
 // one API operation on a shared session, chosen at random
-func apiOp(r *rand.Rand, sc string, pk protoKind, sess erpc.Session, peers []erpc.Peer, ids []string) {
+func apiOp(r *rand.Rand, sc string, pk protoKind, sess erpc.Session, peers []erpc.Peer, ids []string, kp *keeper) {
+	// between any two operations: re-read results of calls that completed earlier
+	kp.look(r)
 	// no recover here: a panic of the library must end the child (sync.WaitGroup.Wait panics
 	// between race.Disable and race.Enable, so a goroutine that recovered from it would produce
 	// bogus reports afterwards)
 	countOp(sc)
 	switch k := r.Intn(20); {
 	case k < 5: // call
+		// every call carries a tag in its metadata, the reply repeats it; the completed command
+		// is snapshotted and kept for later re-reading (keep.go)
 		var cmd erpc.CallCmd
 		if bounded[sc] {
 			// redial scenario: a reply may never arrive on a session whose redial went wrong
 			// (see the redial findings); do not block the worker on it
-			ch := make(chan erpc.CallCmd, 1)
-			if pk.strukt {
-				cmd = sess.AsyncCall(callPathS, &TMsg{Author: "r"}, new(TMsg), ch)
-			} else {
-				cmd = sess.AsyncCall(callPathB, RandBytes(r, 1+r.Intn(40)), new([]byte), ch)
-			}
-			select {
-			case <-ch:
-			case <-time.After(2 * time.Second):
+			if cmd = callKept(r, sc, pk, sess, kp, true, 2*time.Second); cmd == nil {
 				return
 			}
-		} else if pk.strukt {
-			var res TMsg
-			cmd = sess.Call(callPathS, &TMsg{Author: ids[r.Intn(len(ids))]}, &res)
 		} else {
-			var res []byte
-			cmd = sess.Call(callPathB, RandBytes(r, 1+r.Intn(400)), &res, append(pipe(r), erpc.WithAddMeta("a", "b"))...)
+			cmd = callKept(r, sc, pk, sess, kp, false, 0)
 		}
 		cmd.Reply()
 		cmd.CostTime()
@@ -191,19 +186,30 @@ func apiOp(r *rand.Rand, sc string, pk protoKind, sess erpc.Session, peers []erp
 		cmd.StatusOK()
 	case k < 7: // async call
 		ch := make(chan erpc.CallCmd, 4)
-		var cmds []erpc.CallCmd
+		type pend struct {
+			tag  string
+			bptr *[]byte
+			sptr *TMsg
+		}
+		pending := map[erpc.CallCmd]pend{}
 		for i := 0; i < 1+r.Intn(3); i++ {
+			tag := nextTag(sc)
 			if pk.strukt {
-				cmds = append(cmds, sess.AsyncCall(callPathS, &TMsg{Author: "a"}, new(TMsg), ch))
+				res := new(TMsg)
+				pending[sess.AsyncCall(callPathS, &TMsg{Author: "a"}, res, ch, metaSettings(r, tag)...)] = pend{tag, nil, res}
 			} else {
-				cmds = append(cmds, sess.AsyncCall(callPathB, RandBytes(r, 1+r.Intn(400)), new([]byte), ch, pipe(r)...))
+				res := new([]byte)
+				pending[sess.AsyncCall(callPathB, RandBytes(r, 1+r.Intn(400)), res, ch, append(pipe(r), metaSettings(r, tag)...)...)] = pend{tag, res, nil}
 			}
 		}
-		for range cmds {
+		for range pending {
 			select {
 			case c := <-ch:
 				c.Reply()
 				c.CostTime()
+				if pd, ok := pending[c]; ok && kp != nil {
+					kp.add(snapshot(sc, pd.tag, !pk.strukt, c, pd.bptr, pd.sptr))
+				}
 			case <-time.After(2 * time.Second):
 			}
 		}
@@ -279,6 +285,7 @@ func scenPair(deadline time.Time, seed int64, pk protoKind) {
 			r := rand.New(rand.NewSource(seed + int64(round*100+g)))
 			go func(g int) {
 				defer wg.Done()
+				kp := &keeper{}
 				for {
 					select {
 					case <-stop:
@@ -290,7 +297,7 @@ func scenPair(deadline time.Time, seed int64, pk protoKind) {
 					if g%3 == 0 {
 						s = p.SrvSess
 					}
-					apiOp(r, sc, pk, s, []erpc.Peer{srv, cli}, ids)
+					apiOp(r, sc, pk, s, []erpc.Peer{srv, cli}, ids, kp)
 				}
 			}(g)
 		}
@@ -368,13 +375,14 @@ func scenRedial(deadline time.Time, seed int64, pk protoKind) {
 			r := rand.New(rand.NewSource(seed + int64(round*100+g)))
 			go func() {
 				defer wg.Done()
+				kp := &keeper{}
 				for {
 					select {
 					case <-stop:
 						return
 					default:
 					}
-					apiOp(r, sc, pk, sess, []erpc.Peer{srv, cli}, ids)
+					apiOp(r, sc, pk, sess, []erpc.Peer{srv, cli}, ids, kp)
 				}
 			}()
 		}
@@ -467,6 +475,7 @@ func scenOverload(deadline time.Time, seed int64) {
 		r := rand.New(rand.NewSource(seed + 10 + int64(g)))
 		go func() {
 			defer wg.Done()
+			kp := &keeper{}
 			for {
 				select {
 				case <-stop:
@@ -476,7 +485,7 @@ func scenOverload(deadline time.Time, seed int64) {
 				p := ServePair(srv, cli, pk.mk())
 				if p.CliSess != nil && p.SrvSess != nil {
 					for i := 0; i < 20; i++ {
-						apiOp(r, sc, pk, p.CliSess, []erpc.Peer{srv, cli}, []string{"x", "y"})
+						apiOp(r, sc, pk, p.CliSess, []erpc.Peer{srv, cli}, []string{"x", "y"}, kp)
 					}
 				}
 				if p.CliSess != nil {
@@ -612,17 +621,26 @@ func childStress(cfg *RunCfg) {
 	tmp := newPeer(erpc.PeerConfig{})
 	tmp.Close()
 	var wg sync.WaitGroup
-	run := func(f func()) { wg.Add(1); go func() { defer wg.Done(); f() }() }
+	// -mode <prefix> (debugging aid): only the scenarios whose name starts with the prefix
+	run := func(name string, f func()) {
+		if *modeFlag != "" && !strings.HasPrefix(name, *modeFlag) {
+			return
+		}
+		wg.Add(1)
+		go func() { defer wg.Done(); f() }()
+	}
 	for i, pk := range protos {
 		pk := pk
 		seed := cfg.Seed*1000 + int64(i)
-		run(func() { scenPair(deadline, seed, pk) })
+		run("pair/"+pk.name, func() { scenPair(deadline, seed, pk) })
 	}
-	run(func() { scenRedial(deadline, cfg.Seed*1000+10, protos[0]) })
-	run(func() { scenRedial(deadline, cfg.Seed*1000+11, protos[1]) })
-	run(func() { scenOverload(deadline, cfg.Seed*1000+20) })
-	run(func() { scenDialDrop(deadline, cfg.Seed*1000+30) })
-	run(func() { scenHeartbeat(deadline, cfg.Seed*1000+40) })
+	run("redial/raw", func() { scenRedial(deadline, cfg.Seed*1000+10, protos[0]) })
+	run("redial/thrift-binary", func() { scenRedial(deadline, cfg.Seed*1000+11, protos[1]) })
+	run("overloader", func() { scenOverload(deadline, cfg.Seed*1000+20) })
+	run("dialdrop", func() { scenDialDrop(deadline, cfg.Seed*1000+30) })
+	run("heartbeat", func() { scenHeartbeat(deadline, cfg.Seed*1000+40) })
+	run("results", func() { scenResults(deadline, cfg.Seed*1000+50) })
+	inspectors(deadline, cfg.Seed*1000+60, 2, &wg)
 	all := make(chan struct{})
 	go func() { wg.Wait(); close(all) }()
 	select {
@@ -634,5 +652,7 @@ func childStress(cfg *RunCfg) {
 		fmt.Printf("OPS %s %d\n", k.(string), atomic.LoadInt64(v.(*int64)))
 		return true
 	})
+	fmt.Printf("OPS completed-calls-kept %d\n", atomic.LoadInt64(&keptCount))
+	fmt.Printf("OPS completed-calls-reread %d\n", atomic.LoadInt64(&recheckCount))
 	time.Sleep(100 * time.Millisecond)
 }
